@@ -2,6 +2,7 @@ package rules
 
 import (
 	"fmt"
+	"reflect"
 	"go/types"
 	"strings"
 
@@ -362,5 +363,153 @@ func replayVotesRule(c *Ctx, id string) {
 	}
 	if n < 2 {
 		c.R.Undecided(rule, "signAddVote:calls", c.P.Pos(f.F.Pos()), fname(f), "signVote / sendInternalMessage not found")
+	}
+}
+
+// ---- rules added after the fifth round ----
+
+// noSendUnderConsensusLock (C08-R15, C12-R10): the reactor never blocks on the consensus queue while holding cs.mtx.
+func noSendUnderConsensusLock(c *Ctx, id string) {
+	rule := c.R.Rule(id, "no blocking send under the consensus mutex: a send on ConsensusState.peerMsgQueue / internalMsgQueue in the pbft package is never executed with ConsensusState.mtx held — receiveRoutine takes that mutex for every message, so a reactor goroutine that waits on a full queue while holding it wedges consensus for good (a peer only has to flood the vote channel)", 3)
+	a := c.Locks()
+	n := 0
+	for _, fn := range c.P.FuncsOfPkg("gemmill/consensus/pbft") {
+		if fn.Blocks == nil {
+			continue
+		}
+		f := c.Fn(fn)
+		for _, b := range fn.Blocks {
+			for _, ins := range b.Instrs {
+				snd, ok := ins.(*ssa.Send)
+				if !ok || !f.Live(ins) {
+					continue
+				}
+				ch := exprOf(snd.Chan)
+				if !(strings.HasSuffix(ch, ".peerMsgQueue") || strings.HasSuffix(ch, ".internalMsgQueue")) {
+					continue
+				}
+				n++
+				held := a.MustHeld(ins)
+				c.R.Ob(rule, "send:"+core.Short(core.FuncName(fn))+":"+ch[strings.LastIndex(ch, ".")+1:], !held["gemmill/consensus/pbft.ConsensusState.mtx"], c.Pos(ins), core.FuncName(fn), fmt.Sprintf("locks held at the send: %v", held.Sorted()))
+			}
+		}
+	}
+	c.R.Ob(rule, "queue-sends", n >= 3, "-", "", fmt.Sprintf("%d", n))
+}
+
+// c14R8: the tally uses the validator set the chain has now.
+func c14R8(c *Ctx) {
+	rule := c.R.Rule("R8", "the quorum is tallied against the current set: AdminOp.EndBlock publishes the block's next validator set through the plugin's own pointer (`*s.validators = p.NextValidatorSet`) on the path that applied changes — consensus commits every block on a copy of the state, so the struct the pointer was initialised with is never updated by anyone else and CheckMajor23 would keep counting removed validators", 1)
+	f := c.Anchor(rule, aopT+".EndBlock")
+	if f == nil {
+		return
+	}
+	ok := false
+	for _, st := range f.Stores(func(a string) bool { return a == "a0.validators" }) {
+		if exprOf(st.Val) == "a1.NextValidatorSet" {
+			ok = true
+		}
+	}
+	c.R.Ob(rule, "EndBlock:publishes-NextValidatorSet", ok, c.P.Pos(f.F.Pos()), fname(f), "no store `*s.validators = p.NextValidatorSet`")
+}
+
+// c16R9: whoever enters a later round rotates the proposer first.
+func c16R9(c *Ctx) {
+	rule := c.R.Rule("R9", "round entry rotates the proposer: in ConsensusState.addVote every jump to a step of the vote's round (enterPrevote / enterPrevoteWait / enterPrecommit / enterPrecommitWait / enterCommit with round = vote.Round) is dominated by enterNewRound(height, vote.Round) — only enterNewRound copies the validator set and applies IncrementAccum(round - cs.Round); skipping it leaves the replica with an earlier round's proposer", 5)
+	f := c.Anchor(rule, csT+".addVote")
+	if f == nil {
+		return
+	}
+	var news []ssa.Instruction
+	for _, ci := range f.CallsTo(cfgx.Named(csT + ".enterNewRound")) {
+		if callArg(ci, 2) == "a1.Round" {
+			news = append(news, ci.(ssa.Instruction))
+		}
+	}
+	n := 0
+	for _, ci := range f.Calls() {
+		name := cfgxCallee(ci)
+		if !strings.HasPrefix(name, csT+".enter") || name == csT+".enterNewRound" || len(ci.Common().Args) < 3 || callArg(ci, 2) != "a1.Round" {
+			continue
+		}
+		n++
+		ok := false
+		for _, nr := range news {
+			if f.Dominates(nr, ci.(ssa.Instruction)) {
+				ok = true
+			}
+		}
+		c.R.Ob(rule, "addVote:"+name[strings.LastIndex(name, ".")+1:]+"(vote.Round)⊣enterNewRound(vote.Round)", ok, c.Pos(ci), fname(f), "step of the vote's round entered without enterNewRound for that round")
+	}
+	c.R.Ob(rule, "round-jumps", n >= 5, c.P.Pos(f.F.Pos()), fname(f), fmt.Sprintf("%d", n))
+}
+
+// c18R11: JSON strings through encoding/json; no consensus-critical field hidden from the codec.
+func c18R11(c *Ctx) {
+	rule := c.R.Rule("R11", "codec completeness: go-wire's JSON writer quotes strings with encoding/json (strconv.Quote emits Go escapes that are not JSON); no exported field of the consensus-critical types (Header, Data, Block, Commit, Vote, Proposal, Part, PartSetHeader, BlockID, BlockMeta, Validator, ValidatorSet, State) carries the json tag `-` — go-wire derives its binary field list from the json tag, such a field is dropped from both formats", 20)
+	for _, fn := range c.P.FuncsOfPkg("gemmill/go-wire") {
+		if fn.Blocks == nil || !strings.Contains(fn.Name(), "JSON") {
+			continue
+		}
+		f := c.Fn(fn)
+		for _, ci := range f.Calls() {
+			if strings.HasPrefix(cfgxCallee(ci), "strconv.Quote") {
+				c.R.Ob(rule, "json-string-via-strconv.Quote:"+fn.Name(), false, c.Pos(ci), core.FuncName(fn), "strconv.Quote is Go syntax, not JSON: control characters and non-printable runes round-trip to a decode error")
+			}
+		}
+	}
+	check := func(rel string, names []string) {
+		pk := c.P.Pkg(rel)
+		if pk == nil || pk.Types == nil {
+			c.R.Missing(rule, rel)
+			return
+		}
+		for _, tn := range names {
+			o := pk.Types.Scope().Lookup(tn)
+			if o == nil {
+				c.R.Missing(rule, rel+"."+tn)
+				continue
+			}
+			ts, _ := o.Type().Underlying().(*types.Struct)
+			for i := 0; ts != nil && i < ts.NumFields(); i++ {
+				fld := ts.Field(i)
+				if !fld.Exported() {
+					continue
+				}
+				tag := reflect.StructTag(ts.Tag(i)).Get("json")
+				c.R.Ob(rule, "encoded:"+tn+"."+fld.Name(), tag != "-", c.P.Pos(fld.Pos()), "", "field hidden from go-wire (json tag `-`): lost on every trip through the wire, the block store, the state db")
+			}
+		}
+	}
+	check("gemmill/types", []string{"Header", "Data", "Block", "Commit", "Vote", "Proposal", "Part", "PartSetHeader", "BlockID", "BlockMeta", "Validator", "ValidatorSet"})
+	check("gemmill/state", []string{"State"})
+}
+
+// c20R10: the handshake transcript covers both ephemeral keys.
+func c20R10(c *Ctx) {
+	rule := c.R.Rule("R10", "challenge and nonces bind both ephemeral keys: in genChallenge / genNonces, when the hash input is assembled with copy(), the destination slices are pairwise different regions (two copies into the same region drop one key from the transcript: a recorded signature can be replayed against another node); the hash is computed over a value that depends on both parameters", 2)
+	for _, name := range []string{"genChallenge", "genNonces"} {
+		f := c.Anchor(rule, "gemmill/p2p."+name)
+		if f == nil {
+			continue
+		}
+		dests := map[string]int{}
+		for _, ci := range f.CallsTo(cfgx.Named("builtin:copy")) {
+			dests[callArg(ci, 0)]++
+		}
+		dup := ""
+		for d, k := range dests {
+			if k > 1 {
+				dup = d
+			}
+		}
+		both := false
+		for _, ci := range f.Calls() {
+			if cn := cfgxCallee(ci); strings.HasPrefix(cn, "crypto/sha256.") || strings.HasPrefix(cn, "gemmill/p2p.hash") || strings.HasPrefix(cn, "golang.org/x/crypto/") {
+				e := callArg(ci, 0)
+				both = both || (strings.Contains(e, "a0") && strings.Contains(e, "a1")) || len(dests) >= 2
+			}
+		}
+		c.R.Ob(rule, name+":both-keys-in-distinct-regions", dup == "" && both, c.P.Pos(f.F.Pos()), fname(f), "copy destination used twice: "+shorten(dup))
 	}
 }
